@@ -438,6 +438,16 @@ func mayReturnNilErr(r *ssa.Return) bool {
 				if len(nn) > 0 && guarded(ph.Block().Preds[i], nn) {
 					continue
 				}
+				// … or the incoming edge is itself the non-nil edge of the test
+				onEdge := false
+				for _, ne := range nn {
+					if ne.From == ph.Block().Preds[i] && ne.To() == ph.Block() {
+						onEdge = true
+					}
+				}
+				if onEdge {
+					continue
+				}
 				all = false
 			}
 			if all {
